@@ -7,7 +7,14 @@ CAPS = {':candidate': 'candidate:1.0', ':confirmed-commit': 'confirmed-commit:1.
         ':rollback-on-error': 'rollback-on-error:1.0', ':url': 'url:1.0?scheme=ftp,http', ':notification': 'notification:1.0',
         ':with-defaults': 'with-defaults:1.0?basic-mode=explicit&also-supported=report-all,trim', ':startup': 'startup:1.0', ':xpath': 'xpath:1.0'}
 WD_PARAMS = ['?basic-mode=explicit&also-supported=report-all,trim', '?basic-mode=report-all', '?also-supported=trim', '', '?basic-mode=trim&also-supported=explicit',
-             '?basic-mode=explicit&also-supported=report-all-tagged,report-all']
+             '?basic-mode=explicit&also-supported=report-all-tagged,report-all', '?basic-mode=explicit&also-supported=report-all-tagged',
+             '?basic-mode=report-all-tagged', '?basic-mode=trim&also-supported=report-all-tagged,explicit']
+
+DECOYS = ['urn:ietf:params:xml:ns:netconf:notification:1.0?module=notifications&revision=2008-07-14',
+          'urn:ietf:params:xml:ns:netconf:candidate:1.0', 'urn:ietf:params:netconf:validate:1.1', 'urn:ietf:params:netconf:url:1.0?scheme=ftp',
+          'urn:ietf:params:xml:ns:yang:ietf-netconf-with-defaults?module=ietf-netconf-with-defaults&revision=2011-06-01',
+          'urn:ietf:params:xml:ns:netconf:confirmed-commit:1.1', 'urn:ietf:params:netconf:rollback-on-error:1.0',
+          'http://example.com/netconf:capability:candidate:1.0']
 
 CALLS = [
     ('edit_config', lambda a: dict(config='<config xmlns="urn:ietf:params:xml:ns:netconf:base:1.0"><a xmlns="urn:x"/></config>', target=a['target'],
@@ -19,8 +26,8 @@ CALLS = [
     ('cancel_commit', lambda a: {}, {}),
     ('discard_changes', lambda a: {}, {}),
     ('create_subscription', lambda a: {}, {}),
-    ('get', lambda a: dict(with_defaults=a['wd']), {'wd': [None, 'explicit', 'trim', ' Report-All ', 'bogus']}),
-    ('get_config', lambda a: dict(source=a['source'], with_defaults=a['wd']), {'source': ['running', 'ftp://h/s'], 'wd': [None, 'trim', 'report-all-tagged']}),
+    ('get', lambda a: dict(with_defaults=a['wd']), {'wd': [None, 'explicit', 'trim', ' Report-All ', 'bogus', 'report-all', 'report', 'all', 'tagged', 'explicit,trim', 'rim', '']}),
+    ('get_config', lambda a: dict(source=a['source'], with_defaults=a['wd']), {'source': ['running', 'ftp://h/s'], 'wd': [None, 'trim', 'report-all-tagged', 'report-all', 'all-tagged', 'expl']}),
 ]
 
 
@@ -60,6 +67,10 @@ def gen_case(rng):
             if short == ':with-defaults':
                 tail = 'with-defaults:1.0' + rng.choice(WD_PARAMS)
             uris.append(rng.choice(IETF) + tail)
+    # look-alikes a YANG-enabled server lists in its hello: module namespaces, not capability URNs
+    for d in DECOYS:
+        if rng.random() < 0.3:
+            uris.append(d)
     rng.shuffle(uris)
     return {'kind': 'gate', 'call': ci, 'args': a, 'uris': uris, 'profile': rng.choice(['default', 'junos', 'sros', 'default'])}
 
